@@ -199,6 +199,72 @@ func closeReadDrains(c *core.Ctx) {
 	c.Check(limited, "drain-bounded", dfd.Pos(), "discard drains through an io.LimitedReader with a positive constant bound")
 }
 
+// quietStmt: the statement cannot return, block or panic: a call (plain or deferred) of a sync/atomic
+// function on the address of a variable or of a first-party function made of such statements, or an assignment whose right-hand sides are free of calls,
+// receives, indexing, dereferences and type assertions.
+func quietStmt(p *core.Program, info *types.Info, st ast.Stmt, depth int) bool {
+	atomicCall := func(call *ast.CallExpr) bool {
+		f := astx.CalleeFunc(info, call)
+		if f == nil || f.Pkg() == nil {
+			return false
+		}
+		// a first-party function made of quiet statements only (arguments are checked below)
+		if fd := p.Decl(f); fd != nil && fd.Body != nil && depth < 2 {
+			for _, s := range fd.Body.List {
+				if !quietStmt(p, p.InfoAt(fd.Pos()), s, depth+1) {
+					return false
+				}
+			}
+		} else if f.Pkg().Path() != "sync/atomic" {
+			return false
+		}
+		for _, a := range call.Args {
+			quiet := true
+			ast.Inspect(a, func(n ast.Node) bool {
+				switch n.(type) {
+				case *ast.CallExpr, *ast.IndexExpr, *ast.StarExpr, *ast.TypeAssertExpr:
+					quiet = false
+				}
+				return quiet
+			})
+			if !quiet {
+				return false
+			}
+		}
+		return true
+	}
+	switch x := st.(type) {
+	case *ast.ExprStmt:
+		call, ok := x.X.(*ast.CallExpr)
+		return ok && atomicCall(call)
+	case *ast.DeferStmt:
+		return atomicCall(x.Call)
+	case *ast.AssignStmt:
+		quiet := true
+		for _, e := range append(append([]ast.Expr(nil), x.Lhs...), x.Rhs...) {
+			ast.Inspect(e, func(n ast.Node) bool {
+				switch y := n.(type) {
+				case *ast.CallExpr, *ast.IndexExpr, *ast.StarExpr, *ast.TypeAssertExpr, *ast.FuncLit:
+					quiet = false
+				case *ast.UnaryExpr:
+					if y.Op == token.ARROW {
+						quiet = false
+					}
+				case *ast.BinaryExpr:
+					if y.Op == token.QUO || y.Op == token.REM {
+						quiet = false
+					}
+				}
+				return quiet
+			})
+		}
+		return quiet
+	case *ast.EmptyStmt:
+		return true
+	}
+	return false
+}
+
 func readyClosedOnce(c *core.Ctx) {
 	p := c.P
 	info := p.Connect.TypesInfo
@@ -212,10 +278,16 @@ func readyClosedOnce(c *core.Ctx) {
 		return ok && b.Name() == "close" && len(call.Args) == 1 && astx.IsFieldNamed(info, call.Args[0], "responseReady")
 	}
 	// deferred first
+	// (after statements that can neither return, block nor panic: a counter bumped through sync/atomic,
+	// a local computed without a call)
 	first := false
-	if len(mk.Body.List) > 0 {
-		if d, ok := mk.Body.List[0].(*ast.DeferStmt); ok && isCloseReady(d.Call) {
+	for _, st := range mk.Body.List {
+		if d, ok := st.(*ast.DeferStmt); ok && isCloseReady(d.Call) {
 			first = true
+			break
+		}
+		if !quietStmt(p, info, st, 0) {
+			break
 		}
 	}
 	c.Check(first, "close-deferred-first", mk.Pos(), "makeRequest starts with `defer close(d.responseReady)`: every exit (and a panic in the HTTP client) releases the waiters exactly once")
